@@ -101,6 +101,8 @@ def make_nodes(rng, kind, m):
 
 
 def cases(rng, tier, shard, nshards):
+    for j in range(2 if tier == 'quick' else 10):
+        yield dict(kind='threads', m=int(rng.integers(4, 9)), n=int(rng.integers(0, 4)), nthreads=int(rng.choice([2, 4, 8])), pseed=int(rng.integers(0, 2 ** 31)))
     n = BUDGET[tier] // nshards
     i = 0
     while i < n:
@@ -141,7 +143,50 @@ def cases(rng, tier, shard, nshards):
         i += 1
 
 
+def run_threads(case, ctx):
+    """fd_weights / fd_weights_all are functions of their arguments: threads asking for weights of stencils of the same size at the
+    same time get, bit for bit, what each gets alone."""
+    import sys
+    import threading
+    from numdifftools.fornberg import fd_weights_all, fd_weights
+    rng = np.random.default_rng(case['pseed'])
+    m, n = case['m'], min(case['n'], case['m'] - 1)
+    jobs = [(np.sort(rng.uniform(-1, 1, m)) * float(10.0 ** rng.uniform(-1, 1)), float(rng.uniform(-1, 1))) for _ in range(case['nthreads'])]
+    alone = [(np.array(fd_weights_all(xs, x0, n), copy=True), np.array(fd_weights(xs, x0, n), copy=True)) for xs, x0 in jobs]
+    bad = []
+    old = sys.getswitchinterval()
+    sys.setswitchinterval(1e-6)
+    start = threading.Barrier(len(jobs))
+
+    def worker(k):
+        start.wait(30)
+        for _ in range(40):
+            try:
+                a_, b_ = np.asarray(fd_weights_all(jobs[k][0], jobs[k][1], n)), np.asarray(fd_weights(jobs[k][0], jobs[k][1], n))
+                if a_.tobytes() != alone[k][0].tobytes() or b_.tobytes() != alone[k][1].tobytes():
+                    bad.append((k, a_[-1][:3]))
+            except Exception as exc:
+                bad.append((k, repr(exc)[:100]))
+    ths = [threading.Thread(target=worker, args=(k,)) for k in range(len(jobs))]
+    try:
+        for th in ths:
+            th.start()
+        for th in ths:
+            th.join(120)
+    finally:
+        sys.setswitchinterval(old)
+    ctx.count('concurrent_rounds')
+    ctx.count('concurrent_results_compared', 40 * len(jobs))
+    if bad:
+        ctx.reject('weights_differ_when_other_threads_ask_at_the_same_time', observed=bad[0][1], expected=alone[bad[0][0]][0][-1][:3],
+                   detail=dict(threads=len(jobs), m=m, n=n, differing=len(bad)))
+        return
+    ctx.nontrivial(('threads', m, n, case['nthreads']))
+
+
 def run_case(case, ctx):
+    if case.get('kind') == 'threads':
+        return run_threads(case, ctx)
     from numdifftools.fornberg import fd_weights_all, fd_weights
     x = np.array(case['x'])
     x0, n = case['x0'], case['n']
